@@ -99,13 +99,23 @@ pub open spec fn proxy_credentials(p: &Url) -> Seq<u8> {
     str_bytes(url_username(p)) + seq![58u8] + (match url_password(p) { Some(pw) => str_bytes(pw), None => Seq::empty() })
 }
 /// the only bytes that may go to the proxy in clear: one CONNECT head naming the origin host and effective port
-pub open spec fn connect_head(remote: &Url, proxy: &Url) -> Seq<u8> {
+pub open spec fn connect_head_with(remote: &Url, proxy: &Url, auth: bool) -> Seq<u8> {
     connect_line(url_host(remote).unwrap(), url_effective_port(remote).unwrap())
         + connect_host_line(url_host(proxy).unwrap(), url_effective_port(proxy).unwrap())
         + connect_close_line()
-        + (if url_has_authority(proxy) { connect_auth_line(base64_std(proxy_credentials(proxy))) } else { Seq::empty() })
+        + (if auth { connect_auth_line(base64_std(proxy_credentials(proxy))) } else { Seq::empty() })
         + seq![13u8, 10u8]
 }
+/// the proxy URL carries credentials: a user name or a password
+pub open spec fn url_has_credentials(u: &Url) -> bool { url_username(u).len() > 0 || url_password(u) is Some }
+/// The property fixes the Proxy-Authorization value for proxy URLs *with* credentials; without any, a head with the (empty)
+/// credentials and a head without the field are both right.
+pub open spec fn is_connect_head(h: Seq<u8>, remote: &Url, proxy: &Url) -> bool {
+    h =~= connect_head_with(remote, proxy, true) || (!url_has_credentials(proxy) && h =~= connect_head_with(remote, proxy, false))
+}
+/// `url`: a URL with userinfo has an authority (RFC 3986 3.2; assumed of the crate)
+#[verifier::external_body] pub broadcast proof fn axiom_credentials_need_an_authority(u: &Url)
+    ensures #[trigger] url_has_credentials(u) ==> url_has_authority(u) { }
 pub uninterp spec fn url_has_authority(u: &Url) -> bool;
 pub assume_specification [Url::has_authority] (u: &Url) -> (r: bool) ensures r == url_has_authority(u);
 pub assume_specification [Url::username] (u: &Url) -> (r: &str) ensures r@ == url_username(u);
